@@ -46,8 +46,8 @@ Example toy_note_transparent :
   render_doc bool toy 6 false (unlines (print_lines (Adm false s_note [] ONone Backtick 3) [[120]]))
   = Ok ([Node NAdm s_note (Some 1) [para k_text [120] 2]], sh0 false)
   /\ render_doc bool toy 6 false (unlines [[120]]) = Ok ([para k_text [120] 1], sh0 false)
-  /\ expected bool toy (Adm false s_note [] ONone Backtick 3) [[120]]
-       (fun k => den_text_at bool toy 5 false 0 (sh0 false) (unlines [[120]]) k) 1
+  /\ expected bool toy 5 (Adm false s_note [] ONone Backtick 3) [[120]]
+       (fun h k => den_text_at bool toy 5 false 0 h (unlines [[120]]) k) (sh0 false) 1
      = Ok ([Node NAdm s_note (Some 1) [para k_text [120] 2]], sh0 false, false).
 Proof. repeat split; vm_compute; reflexivity. Qed.
 
